@@ -35,7 +35,9 @@ pub fn drive(t: &mut Tracer, r: &mut Rng, n: usize) {
                 3..=6 => { let other = if r.chance(1, 3) { cur + r.range(-90_000, 90_000) } else { near(r) };
                     let op = if r.chance(1, 2) { "Zoned.until" } else { "Zoned.since" };
                     t.call(op, json!({"zone": zone, "t": cur, "other": other, "st": {"largest": *r.pick(&lgs)}})); }
-                7 => { t.call("Zoned.startOfDay", json!({"zone": zone, "t": cur})); }
+                7 => { if r.chance(1, 2) { t.call("Zoned.startOfDay", json!({"zone": zone, "t": cur})); }
+                       else { let sod = if r.chance(1, 3) { *r.pick(&[0i64, 1800, 3600, 7200, 9000, 10800, 86_399][..]) } else { r.range(0, 86_399) };
+                              t.call("Zoned.withPlainTime", json!({"zone": zone, "t": cur, "sod": sod})); } }
                 _ => { t.call("Zoned.hoursInDay", json!({"zone": zone, "t": cur})); }
             }
         }
